@@ -33,7 +33,7 @@ func (m *Machine) intrinsic(fn *ssa.Function) intrinsicFn {
 		return nil
 	}
 	if fn.Parent() == nil {
-		if mn := mangledName(fn); mn != "" {
+		if mn := mangledName(fn); mn != "" && mn != "strconv_ParseFloat" {
 			if stub := m.prog.stubFor(mn, m.harnessPkg); stub != nil {
 				return func(m *Machine, caller *frame, _ *ssa.Function, args []Value) Value {
 					return m.callSSA(caller, token.NoPos, stub, args, nil)
@@ -535,6 +535,15 @@ func init() {
 			}
 			return s
 		},
+		"internal/stringslite.Clone": func(m *Machine, c *frame, f *ssa.Function, a []Value) Value { return a[0] },
+		"strings.Clone":              func(m *Machine, c *frame, f *ssa.Function, a []Value) Value { return a[0] },
+		"bytes.Clone": func(m *Machine, c *frame, f *ssa.Function, a []Value) Value {
+			s := a[0].(Slice)
+			if s == nil {
+				return Slice(nil)
+			}
+			return append(Slice{}, s...)
+		},
 		"bytes.Equal": func(m *Machine, c *frame, f *ssa.Function, a []Value) Value {
 			return m.strEq(sliceToStr(a[0].(Slice)), sliceToStr(a[1].(Slice)))
 		},
@@ -555,11 +564,12 @@ func init() {
 			return m.symItoa(t)
 		},
 		"strconv.ParseFloat": func(m *Machine, c *frame, f *ssa.Function, a []Value) Value {
-			if h := m.prog.stubFor("strconv_ParseFloat", m.harnessPkg); h != nil {
-				return m.callSSA(c, token.NoPos, h, a, nil)
-			}
 			s, ok := a[0].(Str).concrete()
 			if !ok {
+				// symbolic text: only a harness-provided model can answer
+				if h := m.prog.stubFor("strconv_ParseFloat", m.harnessPkg); h != nil {
+					return m.callSSA(c, token.NoPos, h, a, nil)
+				}
 				m.inconclusive("strconv.ParseFloat on symbolic text")
 			}
 			v, err := strconv.ParseFloat(s, int(m.conc(a[1], "bitSize")))
